@@ -575,12 +575,6 @@ func (x *Explorer) fail(id, kind, detail string, cond *Term, site string) {
 		notKnown = mkAnd(notKnown, mkNot(k.cond))
 	}
 	q := mkAnd(neg, notKnown)
-	if r, ok := x.domDecide(q); ok && r < 0 {
-		q = tFalse
-		if len(x.known) == 0 {
-			return
-		}
-	}
 	if !q.isFalse() {
 		var m map[string]uint64
 		res := Unknown
